@@ -176,10 +176,24 @@ inline void pool_mt(const vf::opts &o, vf::report &R, vf::team &T, uint64_t roun
             // the stop job itself may have been rejected/cancelled if ... it cannot: nobody else stops the pool in this mode
             X.worker_stop_done.get_future().wait();
         }
+        // stop() has returned and every submission call has returned: each job must be settled NOW, while the pool object is still
+        // alive - work parked in a dead pool until its destructor runs is "forgotten with a waiter left hanging"
+        std::string unsettled; int unsettled_kind = -1;
+        if (X.stop_mode != PS_STOP_NONE) {
+            for (int s = 0; s < X.nsub && unsettled.empty(); s++) for (int i = 0; i < X.njobs[s]; i++) {
+                pool_job &j = X.jobs[s][i];
+                bool settled;
+                if (j.fut) settled = j.fut->ready();
+                else if (j.kind == PK_RUN_DETACHED) settled = j.ran.load() == 1 || j.closure_dead.load() == 1;
+                else if (j.kind == PK_CURRENT) settled = j.ran.load() + j.cancelled.load() == 1 || (j.outer_ran.load() == 0 && j.closure_dead.load() == 1);
+                else settled = j.ran.load() + j.cancelled.load() >= 1;
+                if (!settled) { unsettled = std::string(pk_name(j.kind)) + ": still neither executed nor cancelled after stop() returned - work was forgotten in the stopped pool (it would only be released by the pool destructor)"; unsettled_kind = j.kind; break; }
+            }
+        }
         delete X.pool; // destructor stops (again) and joins: must return (X.pool keeps its value: late jobs only compare it)
         R.cases++;
         // ---------------- oracles at quiescence
-        std::string err; int errkind = -1;
+        std::string err = unsettled; int errkind = unsettled_kind;
         int nran = 0, ncancel = 0;
         for (int s = 0; s < X.nsub; s++) for (int i = 0; i < X.njobs[s]; i++) {
             pool_job &j = X.jobs[s][i];
